@@ -1,5 +1,10 @@
 package http2
 
+import (
+	"fmt"
+	"os"
+)
+
 // Harness primitives. Under the symbolic executor every function in this file
 // is intercepted by name; the bodies below are the native versions used when
 // a solver model is replayed against the real build (values come off a tape).
@@ -81,7 +86,11 @@ func vSymbolic() bool   { return false }
 func vUnsupported(msg string) { panic(vUnsupportedT{msg}) }
 func vQuiesce()         {}
 func vLiveTasks() int   { return 0 }
-func vNote(s string)    {}
+func vNote(s string) {
+	if os.Getenv("VERIF_VERBOSE") != "" {
+		fmt.Fprintln(os.Stderr, "NOTE:", s)
+	}
+}
 func vPoolNotes() int   { return 0 }
 func vInPool(x any) bool { return false }
 
